@@ -51,6 +51,9 @@ class G:
             if fs[-1]["ren"]:
                 # a second forwarded attribute (without effect on the output) before or after the rename
                 fs[-1]["more"] = self.rng.choice(["", "pre", "post", "pre"])
+            if fs[-1]["skip"] and self.rng.random() < 0.5:
+                # a forwarded serde attribute that never takes effect (the predicate is constantly false)
+                fs[-1]["sif"] = True
             if fs[-1]["skip"] and self.rng.random() < 0.6:
                 # a converted field of the same type right after a skipped one (positional mix-ups show)
                 fs.append({"n": ("f%dn" % i) if named else "", "t": list(t), "ren": "", "skip": False})
@@ -118,6 +121,8 @@ def rust_typedef(t):
         a = ""
         if f["skip"]:
             a += "#[convert_save_load_skip_convert] "
+        if f.get("sif"):
+            a += '#[convert_save_load_attr(serde(skip_serializing_if = "never"))] '
         if f["ren"]:
             ren = '#[convert_save_load_attr(serde(rename = "%s"))] ' % f["ren"]
             alias = '#[convert_save_load_attr(serde(alias = "%s_al"))] ' % f["ren"]
@@ -252,6 +257,18 @@ def generate(seed, ntypes, nvalues):
         F("p0", "pair", ren="coords", more="post")]})
     g.types.append({"k": "tuple", "name": "TF3", "generic": False, "variants": [], "fields": [
         F("", "u32", skip=True), F("", "entity"), F("", "u32", skip=True), F("", "u32"), F("", "entity")]})
+    # fields copied as they are that carry a forwarded serde attribute (struct and tuple struct, enum variants)
+    def SK(n, t):
+        d = F(n, t, skip=True)
+        d["sif"] = True
+        return d
+    g.types.append({"k": "named", "name": "TF4", "generic": False, "variants": [], "fields": [
+        F("e0", "entity"), SK("label", "string"), F("w", "u32"), SK("o", "optu32")]})
+    g.types.append({"k": "tuple", "name": "TF5", "generic": False, "variants": [], "fields": [
+        F("", "entity"), SK("", "u32"), F("", "u32")]})
+    g.types.append({"k": "enum", "name": "TF6", "generic": False, "fields": [], "variants": [
+        {"n": "A", "k": "tuple", "ren": "", "fields": [SK("", "u32"), F("", "entity")]},
+        {"n": "B", "k": "named", "ren": "", "fields": [F("who", "entity"), SK("tag", "string")]}]})
     bytype = {t["name"]: t for t in g.types}
     inst = Inst(g, bytype)
     items = []       # (tid, resolved type, value, rust type expr, rust value expr)
@@ -293,6 +310,14 @@ def generate(seed, ntypes, nvalues):
     comps.append({"tid": 92000100, "name": "CU0", "spec": {"base": "", "inner": ""}, "attr": "", "zst": True})
     comps.append({"tid": 92000101, "name": "CU1", "spec": {"base": "", "inner": ""}, "attr": "", "zst": "braces"})
     comps.append({"tid": 92000102, "name": "CU2", "spec": {"base": "VecStorage", "inner": ""}, "attr": "#[storage(VecStorage)]", "zst": True})
+    # storages named by a module-qualified path
+    for j, (attr, base, inner) in enumerate([
+            ("#[storage(specs::storage::VecStorage)]", "VecStorage", ""),
+            ("#[storage(::specs::storage::HashMapStorage<Self>)]", "HashMapStorage", ""),
+            ("#[storage(specs::NullStorage)]", "NullStorage", ""),
+            ("#[storage(specs::storage::FlaggedStorage<Self, specs::storage::VecStorage<Self>>)]", "FlaggedStorage", "VecStorage"),
+            ("#[storage(specs::storage::BTreeStorage)]", "BTreeStorage", "")]):
+        comps.append({"tid": 92000200 + j, "name": "CQ%d" % j, "spec": {"base": base, "inner": inner}, "attr": attr, "zst": base == "NullStorage"})
     return g.types, items, comps
 
 
@@ -307,6 +332,9 @@ use specs::{Component, ConvertSaveload};
 
 pub struct Tag;
 type SM = SimpleMarker<Tag>;
+fn never<T>(_: &T) -> bool {
+    false
+}
 
 fn tag(v: &Value) -> Value {
     match v {
